@@ -1,4 +1,5 @@
 pub mod conf;
+pub mod grid;
 pub mod layout;
 pub mod mutate;
 pub mod prog;
